@@ -265,6 +265,11 @@ H("h_kernels::blocking_clause_removes_exactly_one_solution", "pumpkin-solver", "
                           "get_integer_value}", "Assignments::get_domains"],
   "a full assignment s of 4 variables (any i32 values) and any other point", "4 variables, "
   "full i32", timeout=600, mem_gb=4, only_props=["C03"], full_range=True)
+H("h_kernels::blocking_clause_conflicts_with_the_solution_state", "pumpkin-solver", "kernels",
+  ["K-block"], "quick", ["solution_iterator::get_blocking_clause",
+                          "Assignments::evaluate_predicate", "Predicate::get_domain"],
+  "a full assignment s of 4 variables (any i32 values)", "4 variables, full i32", timeout=600,
+  mem_gb=4, only_props=["C03"], full_range=True)
 H("h_kernels::post_predicate_fails_iff_falsified", "pumpkin-solver", "kernels", ["K-assume"],
   "quick", ["Assignments::{post_predicate,evaluate_predicate}"],
   "any domain with 1 hole, any predicate, any value x", "full i32, 1 hole (+1 made by the post)", timeout=600,
